@@ -212,7 +212,7 @@ class Inventory:
             if isinstance(cond, tuple) and cond[0] == "binop" and cond[1] == "Lt":
                 idx, ln = cond[2], cond[3]
                 v = ln[1] if isinstance(ln, tuple) and ln[0] == "len" else None
-                return self._index_in_range(b, idx, v, guards)
+                return self._index_in_range(b, idx, v, guards, path, i)
             if isinstance(cond, tuple) and cond[0] == "not" and isinstance(cond[1], tuple) and cond[1][0] == "empty":
                 # index 0 of a non-empty check
                 v = cond[1][1]
@@ -223,13 +223,36 @@ class Inventory:
             return self._no_overflow(b, cond, guards)
         return None
 
-    def _index_in_range(self, b, idx, v, guards):
+    def _index_in_range(self, b, idx, v, guards, path=None, upto=None):
         if v is None:
             return None
         v = mir.strip(v)
         x = idx
         while isinstance(x, tuple) and x and x[0] == "cast":
             x = x[1]
+        # D9: the index was found by v.iter().position(..)/rposition(..) (the Some payload) and v has not been
+        # written since the search
+        if (isinstance(x, tuple) and x[0] == "field" and isinstance(x[1], tuple) and x[1][0] == "variant" and x[1][2] == "Some"
+                and isinstance(x[1][1], tuple) and x[1][1][0] == "call" and method_name(x[1][1][1]) in ("position", "rposition")
+                and len(x[1][1][2]) == 2 and path is not None and upto is not None):
+            c = x[1][1]
+            it = c[2][0]
+            if isinstance(it, tuple) and it[0] == "iter" and mir.strip(it[1]) == v:
+                start = None
+                for j, ev in enumerate(path.events[:upto]):
+                    if ev.kind == "call" and ev.c == c:
+                        start = j
+                if start is not None:
+                    clean = True
+                    for ev in path.events[start + 1:upto]:
+                        if ev.kind == "loop":
+                            clean = False
+                        if ev.kind == "store" and mir.mentions(ev.a, v):
+                            clean = False
+                        if ev.kind == "call" and any(mir.mentions(r, v) or mir.mentions(v, r) for r in (ev.d or ())):
+                            clean = False
+                    if clean:
+                        return "D9:index-found-by-position()-on-the-same-unmodified-vector"
         # D2: induction variable of a range 0..len(v) (any direction) or i+1..len(v)
         if isinstance(x, tuple) and x[0] == "elem" and isinstance(x[1], tuple) and x[1][0] == "iter":
             r = x[1][1]
@@ -327,7 +350,7 @@ class Inventory:
                     return "D3:last/first().unwrap()-under-a-non-empty-test"
         if kind == "index" and len(e.b) == 2:
             v, idx = mir.strip(e.b[0]), e.b[1]
-            d = self._index_in_range(b, idx, v, guards)
+            d = self._index_in_range(b, idx, v, guards, path, i)
             if d:
                 return d
             if isinstance(idx, tuple) and idx[0] == "agg" and idx[1] == "std::ops::RangeFull":
@@ -344,7 +367,7 @@ class Inventory:
                     return "D3:slice-0..len(-1)-under-a-non-empty-test"
         if kind == "vec-op" and method_name(e.a) == "remove" and len(e.b) == 2:
             v, idx = mir.strip(e.b[0]), e.b[1]
-            d = self._index_in_range(b, idx, v, guards)
+            d = self._index_in_range(b, idx, v, guards, path, i)
             if d:
                 return "D4:remove-at-an-in-range-index(" + d.split(":")[0] + ")"
         return None
